@@ -136,7 +136,7 @@ def run_R(ck: Check):
         ok, clause, info = _eval(case)
         ck.evaluate(cls, sample=case if len(ck.samples) < 6 and case.get('n') in (3, 5) and case['pattern'] == 'random' else None)
         if not ok:
-            n = case.get('n', max(case.get('ns', [0])))
+            n = case.get('n', max(case.get('ns') or [0]))
             w = f"{case['fn']} length-class={_shape(n)} pattern={case['pattern']}"
             if (clause, w) not in seen and len(seen) < 24:
                 seen.add((clause, w))
